@@ -216,7 +216,7 @@ def generate(rng, seed, run, tier, focus='C11', xmode=False):
                     what = rng.choice(['ctx', 'lat'])
                     t = target('pickle', '.pkl')
                     events.append(['pk_w', nd, s, what, t, rng.choice([2, 4, 5])])
-                    if what == 'ctx' or info.get('nc', 0) < 370:
+                    if True:
                         files[t] = dict(info, form='pk_' + what)
                         events.append(['pk_r', other, t, dst])
                         slots[(other, dst)] = dict(info, kind='lat' if what == 'lat' else 'ctx')
@@ -304,8 +304,7 @@ def generate(rng, seed, run, tier, focus='C11', xmode=False):
             what = rng.choice(['ctx', 'lat'])
             t = target('pickle', '.pkl')
             events.append([kind, nd, s, what, t, rng.choice([0, 1, 2, 3, 4, 5])])
-            if what == 'ctx' or info.get('nc', 0) < 370:
-                files[t] = dict(info, form='pk_' + what)
+            files[t] = dict(info, form='pk_' + what)
         elif kind == 'txt_w':
             frmat = rng.choice(TEXT_FORMATS)
             t = target(frmat, SUFFIX[frmat])
